@@ -58,8 +58,14 @@ def load_known():
             continue
         m = re.match(r"finding:\s+property=(\S+)\s+key=(\S+)\s+(.*)$", line)
         if m:
+            what = m.group(3)
+            cl = None
+            mc = re.match(r"clauses=([\d,]+)\s+(.*)$", what)
+            if mc:
+                cl = {int(x) for x in mc.group(1).split(",")}
+                what = mc.group(2)
             out.append({"property": m.group(1), "key": m.group(2),
-                        "what": m.group(3)})
+                        "what": what, "clauses": cl})
     return out
 
 
@@ -101,8 +107,50 @@ def solve_one(idx):
     ident0 = f"{r.contract.func}::{stable_name(o)}"
     known_here = ident0 in _GEN.get("known", ()) and _GEN.get("tier") == \
         "quick"
+    listed_clauses = _GEN.get("known_clauses", {}).get(ident0)
+    extra_clause = None
     try:
-        if known_here:
+        if ident0 in _GEN.get("known", ()) and listed_clauses and \
+                o.kind == "interrupt_inv":
+            # a listed finding of a conjunctive point-wise invariant names
+            # the clauses that fail at this statement.  Every OTHER clause
+            # must still be proved (with the normal budget and the baseline
+            # retry): a change that breaks a further clause at the same
+            # statement is a different violation, not the listed one.
+            import z3 as _z3
+            from pyvc import engine as _E
+            cls_ = o.goal.children() if _z3.is_and(o.goal) else [o.goal]
+            for ci, c in enumerate(cls_):
+                if ci in listed_clauses:
+                    continue
+                sub = _E.Obl(o.name, "sub", o.func, o.lineno, o.hyps, c,
+                             o.path)
+                sub.interp, sub.ncalls = o.interp, o.ncalls
+                discharge([sub], r.timeout_ms, use_cvc5=True, refute=True)
+                if sub.status == "unknown":
+                    discharge([sub], r.timeout_ms * 4, use_cvc5=True,
+                              refute=False)
+                if sub.status != "discharged":
+                    extra_clause = (ci, sub)
+                    break
+            if extra_clause is not None:
+                ci, sub = extra_clause
+                o.status, o.solver, o.model = "refuted", sub.solver, \
+                    sub.model
+                o.note = (f"clause {ci} fails here and is not among the "
+                          f"clauses {sorted(listed_clauses)} of the listed "
+                          f"finding ({sub.status}: {sub.note})")
+                o.name = f"{o.name}:clause{ci}"
+            elif _GEN.get("tier") == "quick":
+                o.status = "refuted"
+                o.note = ("listed known finding: every clause outside the "
+                          "listed failing ones is proved (the listed ones "
+                          "are not re-refuted in the quick tier)")
+            else:
+                discharge([o], r.timeout_ms, use_cvc5=True, refute=True)
+                if o.status != "discharged":
+                    o.status = "refuted"
+        elif known_here:
             # a listed finding: the quick tier only checks whether it has
             # gone away (a cheap proof attempt); the thorough tier re-refutes
             discharge([o], 2500, use_cvc5=False, refute=False)
@@ -161,6 +209,8 @@ def verify_all(cons, tier, pid, jobs):
     _GEN["found"] = mp.Value("i", 0)
     _GEN["baseline"] = load_baseline(pid)
     _GEN["known"] = {k["key"] for k in load_known() if k["property"] == pid}
+    _GEN["known_clauses"] = {k["key"]: k.get("clauses")
+                             for k in load_known() if k["property"] == pid}
     _GEN["tier"] = tier
     solved = {}
     t1 = time.time()
